@@ -161,14 +161,16 @@ func (g *Generator) AdjustEnv(env []*nri.KeyValue) {
 		g.ClearProcessEnv()
 		for _, e := range old {
 			keyval := strings.SplitN(e, "=", 2)
-			if len(keyval) < 2 {
-				continue
-			}
 			if m, ok := mod[keyval[0]]; ok {
 				delete(mod, keyval[0])
 				if _, marked := m.IsMarkedForRemoval(); !marked {
 					g.AddProcessEnv(m.Key, m.Value)
 				}
+				continue
+			}
+			if len(keyval) < 2 {
+				// an entry without '=' which the adjustment does not name stays as it is
+				g.Config.Process.Env = append(g.Config.Process.Env, e)
 				continue
 			}
 			g.AddProcessEnv(keyval[0], keyval[1])
